@@ -98,7 +98,18 @@ function buildWork(ctx) {
   return work
 }
 
+/** Finding recorded by its witness only: sub-expressions are hoisted and evaluated eagerly. */
+function runFindingWitnesses(ctx) {
+  const { ge, report } = ctx
+  const src = '<x v="{{ a ? (f(a) ? 1 : 2) : 3 }}"/>'
+  const res = compileMany([{ id: 0, files: [['p', src]], scripts: [] }]).get(0)
+  const r = instantiate(ge, res.groups, 'p', { a: null, f: (x) => x.length > 0 }, {})
+  if (r.error && /null|undefined/.test(String(r.error.message))) report.knownHit('eager-subexpression-evaluation', 'the conditions of `?:`, the left operands of `??` and computed member keys are hoisted into statements and evaluated even when JavaScript would not reach them: `{{ a ? (f(a) ? 1 : 2) : 3 }}` with a = null calls f(null) (which may throw; JavaScript gives 3)')
+  else report.notes.push('STALE-FINDING eager-subexpression-evaluation: the recorded witness no longer reproduces')
+}
+
 export async function run(ctx) {
+  if (ctx.shard === 0) runFindingWitnesses(ctx)
   const { ge, report, shard, nshards, tier, seed } = ctx
   const all = buildWork(ctx)
   const mine = all.filter((_, i) => i % nshards === shard)
